@@ -5,7 +5,6 @@
 package vh
 
 import (
-	"log"
 	"crypto/sha256"
 	"encoding/binary"
 	"encoding/hex"
@@ -13,6 +12,7 @@ import (
 	"flag"
 	"fmt"
 	"hash/fnv"
+	"log"
 	"os"
 	"path/filepath"
 	"sort"
@@ -436,6 +436,9 @@ func Check[C any](t *testing.T, check string, n int, gen func(*rapid.T) C, run f
 		}
 		Eval()
 		f := filter(run(c))
+		if f != nil && firstFail.IsZero() {
+			f = confirm(f, func() *Failure { return filter(run(c)) })
+		}
 		if f != nil {
 			if firstFail.IsZero() {
 				firstFail = time.Now()
@@ -444,6 +447,32 @@ func Check[C any](t *testing.T, check string, n int, gen func(*rapid.T) C, run f
 			rt.Fatalf("[%s] %s", f.Class, f.Msg)
 		}
 	})
+}
+
+// timingClass: verdicts that say "did not happen within a bound". They rest on the wall clock; a
+// machine busy with other work can hold a goroutine back for seconds, a library that blocks does
+// so every time.
+func timingClass(class string) bool {
+	for _, w := range []string{"block", "hang", "stuck", "within-bound", "outlives", "starved", "not-ended", "does-not-end", "beyond-bound", "never-told", "did-not", "not-returned", "login-hangs", "reader-not", "timeout"} {
+		if strings.Contains(class, w) {
+			return true
+		}
+	}
+	return false
+}
+
+// confirm re-runs a case whose failure is a timing verdict once: it is reported only if the
+// second run fails as well (with whatever it reports then).
+func confirm(f *Failure, again func() *Failure) *Failure {
+	if f == nil || !timingClass(f.Class) {
+		return f
+	}
+	Label("timing-verdict-repeated")
+	f2 := again()
+	if f2 == nil {
+		Label("timing-verdict-not-confirmed")
+	}
+	return f2
 }
 
 // Each runs one enumerated case (exhaustive loops); returns false after a failure
@@ -486,7 +515,11 @@ func (e *Enum[C]) Do(c C) bool {
 	}
 	e.count++
 	Eval()
-	if f := filter(e.run(c)); f != nil {
+	f := filter(e.run(c))
+	if f != nil {
+		f = confirm(f, func() *Failure { return filter(e.run(c)) })
+	}
+	if f != nil {
 		e.failed = true
 		Violation(e.check, f, c)
 		e.t.Errorf("[%s] %s", f.Class, f.Msg)
